@@ -188,7 +188,8 @@ func (p *FSM) Open(_ <-chan struct{}) (uint64, error) {
 		return 0, err
 	}
 	p.metrics.applied.Store(idx)
-	p.appliedFunc(idx)
+	// Listeners wait for leader revisions, the local index is unrelated to them (it also counts
+	// non-application entries) and must not be reported as if it were one.
 	lx, _ := readLocalIndex(db, sysLeaderIndex)
 	if lx != 0 {
 		p.appliedFunc(lx)
@@ -317,10 +318,9 @@ func (p *FSM) Update(updates []sm.Entry) ([]sm.Entry, error) {
 	}
 
 	p.metrics.applied.Store(idx)
+	// Only leader indices are reported, see Open.
 	if ctx.leaderIndex != nil {
 		p.appliedFunc(*ctx.leaderIndex)
-	} else {
-		p.appliedFunc(idx)
 	}
 	return updates, nil
 }
